@@ -28,7 +28,12 @@
 (*   Converse stated by the generic example ("only chief can call other     *)
 (*   functions such as assign_operator(), remove_operator() or              *)
 (*   set_minting_limit()"): a management call carrying the chief's valid    *)
-(*   signature is accepted (X02_chief_manages).                             *)
+(*   signature is accepted, and so is set_admin on the SAC signed by the    *)
+(*   chief while the contract administers the SAC (X02_chief_manages).      *)
+(*   Converse stated by the library's README flow ("Minter -> SAC: mint ->  *)
+(*   Success"): a registered operator's validly signed mint within its      *)
+(*   limit, clawback of an available balance, or set_authorized is accepted *)
+(*   while the contract administers the SAC (X02_operator_accepted).        *)
 (*                                                                         *)
 (* Event: op = [op, via, acct, amt, flag, key, sig, okey, who, auth]; res;  *)
 (* obs = [admin, bal[h], authz[h], mgr] read back from the SAC (and the     *)
@@ -87,7 +92,7 @@ GNext(g, ev) ==
     [] OTHER -> g
 
 Monitors == {"X02_signature", "X02_role", "X02_limit", "X02_wrapper_gate", "X02_handover", "X02_effect",
-             "X02_chief_manages"}
+             "X02_chief_manages", "X02_operator_accepted"}
 PropOf(m) == "X02"
 
 \* the call needs the generic admin contract's own authorization (its __check_auth decides)
@@ -102,8 +107,15 @@ Ante(m, g, ev) ==
     [] m = "X02_wrapper_gate"  -> ok /\ ~Generic(g) /\ ((o.op \in SacFns /\ Own(g)) \/ o.op \in RoleFns \/ o.op = "xfer" \/ o.op \in MgmtFns)
     [] m = "X02_handover"      -> ok /\ o.op \in SacFns /\ ~Own(g)
     [] m = "X02_effect"        -> TRUE
-    [] m = "X02_chief_manages" -> /\ Generic(g) /\ o.op \in MgmtFns /\ o.key = g.chief /\ o.sig = "good"
-                                  /\ o.amt >= 0 /\ (o.op = "update_limit" => HasLim(g, o.okey))
+    [] m = "X02_chief_manages" -> /\ Generic(g) /\ o.key = g.chief /\ o.sig = "good"
+                                  /\ \/ o.op \in MgmtFns /\ o.amt >= 0 /\ (o.op = "update_limit" => HasLim(g, o.okey))
+                                     \/ o.op = "set_admin" /\ o.via = "sac" /\ Own(g)   \* the SAC asks nothing else
+    [] m = "X02_operator_accepted" ->
+         /\ Generic(g) /\ Own(g) /\ o.via = "sac" /\ o.sig = "good" /\ o.key \in g.ops
+         /\ \/ o.op = "mint" /\ HasLim(g, o.key) /\ o.amt >= 0 /\ g.lim[o.key].curr + o.amt <= g.lim[o.key].max
+               /\ g.authz[o.acct]                                    \* the SAC itself refuses a deauthorized receiver
+            \/ o.op = "clawback" /\ o.amt > 0 /\ g.bal[o.acct] >= o.amt   \* ... and a missing or insufficient balance
+            \/ o.op = "set_authorized"
 
 Cons(m, g, ev) ==
   LET o == ev.op  g2 == GNext(g, ev) IN
@@ -122,8 +134,18 @@ Cons(m, g, ev) ==
          /\ \A h \in Holders : ev.obs.bal[h] = g2.bal[h] /\ ev.obs.bal[h] >= 0 /\ ev.obs.authz[h] = g2.authz[h]
          /\ (~Generic(g) => ev.obs.mgr = g2.mgr)
     [] m = "X02_chief_manages" -> ev.res = "ok"
+    [] m = "X02_operator_accepted" -> ev.res = "ok"
 
 Holds(m, g, ev) == Ante(m, g, ev) => Cons(m, g, ev)
-Key(m, g, ev) == IF m = "X02_chief_manages" THEN "management_context_is_not_the_sac" ELSE "other"
-Failing(g, ev) == {m \in Monitors : ~Holds(m, g, ev)}
+\* situation of a refused chief / operator call: the admin contract's own entry point (the context handed to
+\* __check_auth names the admin contract, not the SAC), a SAC function whose amount the library looks up at
+\* argument index 2 (a genuine mint / clawback context has arguments 0 and 1 only), or something else
+Key(m, g, ev) ==
+  CASE m = "X02_chief_manages" ->
+         IF ev.op.op \in MgmtFns THEN "management_context_is_not_the_sac" ELSE "chief_refused_on_the_sac"
+    [] m = "X02_operator_accepted" ->
+         IF ev.op.op \in {"mint", "clawback"} THEN "sac_call_has_no_argument_2" ELSE "set_authorized_refused"
+    [] OTHER -> "other"
+\* monitors whose failure leaves the ghost state in step with the code (the refused call changed nothing)
+NonFatal == {"X02_chief_manages", "X02_operator_accepted"}
 =============================================================================
